@@ -50,8 +50,13 @@ def run(ctx):
                   # VRF beacon backend: committee elections from VRF proofs (per-entity de-duplication and ordering by hashed
                   # betas); with a threshold of 5 proofs some epochs have a low-quality alpha and must elect no committee
                   ["-vrf", "-epoch", "6", "-validators", "5", "-maxgroup", "3"],
-                  ["-vrf", "-epoch", "6", "-validators", "5", "-maxgroup", "3", "-vrfthreshold", "5", "-maxvals", "4"]):
-        ls, ss = cc.run_scenarios(ctx, [ctx.seed * 1000 + 100 * len(sums) + i for i in range(n)], blocks, extra=extra)
+                  ["-vrf", "-epoch", "6", "-validators", "5", "-maxgroup", "3", "-vrfthreshold", "5", "-maxvals", "4"],
+                  # nodes without the validator role (registered once a runtime exists, spread over the entities): an entity may have
+                  # committee candidates and no elected validator (validators sit VRF epochs out more often in this group)
+                  ["-vrf", "-epoch", "6", "-validators", "5", "-maxgroup", "3", "-computeonly", "5"],
+                  ["-validators", "4", "-maxvals", "2", "-maxgroup", "3", "-computeonly", "4"]):
+        ns = n + 2 if "-computeonly" in extra and "-vrf" in extra else n
+        ls, ss = cc.run_scenarios(ctx, [ctx.seed * 1000 + 100 * len(sums) + i for i in range(ns)], blocks, extra=extra)
         lines += ls
         sums += ss
     nel = sum(1 for ln in lines if '"ev":"elect_out"' in ln)
